@@ -11,8 +11,8 @@
    translator's parser), and the bytes to what the model of `impl Display for Problem` prints. *)
 From Coq Require Import List String.
 Import ListNotations.
-From Anthem Require Import Syntax.Fol Syntax.Tff Model.Problem Model.TptpPrint Model.ProblemPrint Model.TffText Gen.Preamble
-  Proofs.ProblemText.
+From Anthem Require Import Syntax.Fol Syntax.Tff Sem.Domain Sem.Sat Sem.TffSem Model.Problem Model.TptpPrint Model.ProblemPrint
+  Model.TffText Gen.Preamble Proofs.TptpSem Proofs.ProblemCtx Proofs.ProblemText Proofs.PreambleTff.
 Open Scope string_scope.
 
 Definition preamble_tff_decls : list tff_decl :=
@@ -48,6 +48,29 @@ Theorem C12_preamble_in_text :
   exists ds fs, tp_decls tp = (preamble_tff_decls ++ ds)%list /\ tp_formulas tp = (preamble_tff_axioms ++ fs)%list.
 Proof. exact text_contains_preamble. Qed.
 Print Assumptions C12_preamble_in_text.
+
+(* ---------- truth of the TFF syntax ----------
+   Properties/C12.v (C12_preamble) is about Coq Props printed by the translator.  Here the SAME
+   syntax trees that the bytes read as (C12_preamble_text) are evaluated by the TFF semantics of
+   Sem/TffSem.v ([tff_sat]: $int = Z, f__integer__ = VNum, p__less_equal__ = gle, ...): each is true
+   in every structure and under every assignment, in particular in the structures
+   [tstruct_in K FI M] in which C06_in_problem / C06_text evaluate the problem's own formulas. *)
+Theorem C12_preamble_tff_true :
+  Forall (fun a => forall (S : tstruct) (te : tenv), tff_sat S te (snd a)) preamble_formulas.
+Proof. exact preamble_tff_true. Qed.
+Print Assumptions C12_preamble_tff_true.
+
+(* the symbol_order axioms of a problem outside C09's IdentClass mean, under the signature the
+   problem declares (symbolic constants denote themselves), what their source formulas
+   `a < b` mean (whose truth is the subject of C12_chain_true in Properties/C12.v) *)
+Theorem C12_chain_tff :
+  forall (pb : problem) (ab : string * string) (FI : fint) (M : pint), ident_ok pb = true ->
+  In ab (windows2 (sort_strings (problem_symbols pb))) ->
+  forall (te : tenv) (e : env), (forall n, te n = tenv_of e n) ->
+  (tff_sat (tstruct_in (csig_of_decls (tp_decls (emit pb))) FI M) te (tff_of_formula (symbol_order_formula ab))
+   <-> csat FI M e (symbol_order_formula ab)).
+Proof. exact order_meaning. Qed.
+Print Assumptions C12_chain_tff.
 
 (* non-vacuity (robust against edits of the file): there are declarations and axioms *)
 Example C12text_ex_nonempty : preamble_tff_decls <> [] /\ preamble_tff_axioms <> [].
